@@ -41,4 +41,11 @@ TEXT = {
         "design_ref": "DESIGN.md section 2, C05",
         "level_note": "Trusted base: the cell table in harness/props/c05_test.go, hlref, hlsim, rapid, synctest. Field contents are fixed valid values per cell (the property's 'all field contents' is covered for well-formed requests only; hostile fields are C03/C07).",
     },
+    "C06": {
+        "engine": "E1 bubble world",
+        "technique": "property-based testing (rapid) of both account-creation requests against the subset relation over generated bitmap pairs, exhaustive enumeration of the one-extra-bit positions, and generated kick scenarios in fake time",
+        "level_text": "Generated bitmap pairs biased to the boundary of the subset relation (one extra bit at each of the 64 positions is enumerated for both creation paths); the created account is inspected in memory, on disk, after reload and at its own login. Kick scenarios check connection, ban list (memory, file, fresh load) and reconnect for protected targets under every ban option.",
+        "design_ref": "DESIGN.md section 2, C06",
+        "level_note": "Trusted base: hlref.Access bit numbering, hlsim, rapid, synctest fake clock (5 s settle covers the 1 s delayed disconnect).",
+    },
 }
